@@ -1,4 +1,5 @@
 mod cdlevel;
+mod mdlevel;
 mod clilevel;
 mod container;
 mod declared;
@@ -21,7 +22,9 @@ fn arg(args: &[String], k: &str) -> Option<String> {
 
 fn main() {
     // panics inside the library are caught and classified; keep stderr quiet
-    std::panic::set_hook(Box::new(|_| {}));
+    if std::env::var("VERIF_SHOW_PANICS").is_err() {
+        std::panic::set_hook(Box::new(|_| {}));
+    }
     let args: Vec<String> = std::env::args().collect();
     let cmd = args.get(1).cloned().unwrap_or_default();
     let seed: u64 = arg(&args, "--seed").and_then(|s| s.parse().ok()).unwrap_or(1);
@@ -63,6 +66,11 @@ fn main() {
             let n = arg(&args, "--n").and_then(|s| s.parse().ok()).unwrap_or(300);
             let r = cdlevel::run(seed, n, &driver, &out);
             eprintln!("cd: {} evaluations, {} disagreements, {} violations", r["evaluations"], r["disagreements"].as_array().unwrap().len(), r["violations"].as_array().unwrap().len());
+        }
+        "md" => {
+            let n = arg(&args, "--n").and_then(|s| s.parse().ok()).unwrap_or(400);
+            let r = mdlevel::run(seed, n, &driver, &out);
+            eprintln!("md: {} evaluations, {} disagreements, {} violations", r["evaluations"], r["disagreements"].as_array().unwrap().len(), r["violations"].as_array().unwrap().len());
         }
         "sig" => {
             let extra = arg(&args, "--extra").and_then(|s| s.parse().ok()).unwrap_or(100);
